@@ -37,8 +37,9 @@ op = st.one_of(
     _process, _process, _process, _process,
 )
 history = st.fixed_dictionaries({'docs': st.lists(doc_spec, min_size=1, max_size=3),
-                                 'ops': st.tuples(_new, st.lists(op, min_size=2, max_size=12)).map(
-                                     lambda t: [t[0]] + t[1])})
+                                 'ops': st.tuples(_new, st.lists(op, min_size=2, max_size=12),
+                                                 st.lists(_process, max_size=3)).map(
+                                     lambda t: [t[0]] + t[1] + t[2])})
 
 
 def doc_bytes(spec):
